@@ -295,7 +295,7 @@ func dialRoute(
 		backendHost := netutil.HostStr(backendAddr)
 		if !strings.EqualFold(clearedHost, backendHost) {
 			// Modify the handshake packet to use the backend host as virtual host.
-			handshake.ServerAddress = strings.ReplaceAll(handshake.ServerAddress, clearedHost, backendHost)
+			handshake.ServerAddress = strings.Replace(handshake.ServerAddress, clearedHost, backendHost, 1)
 			forceUpdatePacketContext = true
 		}
 	}
